@@ -23,8 +23,7 @@ Transcribes, at the level of bytes (`List Nat`, every element < 256):
 Conventions for machine arithmetic on `u8`/`u16`/`u32`/`u64` (the values are `Nat` here):
   `x & 0x0F` is `x % 16`, `x & 0xF0` is `x / 16 * 16` (x a byte), `t | n` with `t % 16 = 0` and
   `n < 16` is `t + n`, `x >> k` is `x / 2^k`, `(x << 8) | b` on `u64` is `(x * 256) % 2^64 + b`,
-  `x as u8/u16/u32` is `x % 2^8 / 2^16 / 2^32`, `len & 0x0FFF` is `len % 4096`, `saturating_sub` is
-  `Nat` subtraction.  Flag words are sums of distinct bits and tested with `/ bit % 2`.
+  `x as u8/u16/u32` is `x % 2^8 / 2^16 / 2^32`, `saturating_sub` is `Nat` subtraction.  Flag words are sums of distinct bits and tested with `/ bit % 2`.
 
 What is a parameter rather than modelled: the iteration order of the three `HashMap`s
 (`Fsm.transitions`, `Fsm.executableContent`, `State.data`, `Data::Map`): the model value carries
@@ -32,13 +31,13 @@ them as lists *in the order the writer iterates* and the reader returns lists in
 
 Writer.  `FsmWriter` and `DefaultProtocolWriter::write_data` never look at the error flag, so what
 they do is a fixed sequence of primitive protocol calls (`Op`): `opsFsm`.  `Op.bytes` is what one
-call appends to an ideal sink, `Op.panics` says whether it panics (the `value[0..len]` slice of
-`write_str` when `len & 0x0FFF` is not a character boundary).  `Rfsm.Model.Sink` runs the same
-call sequence against short-writing and failing sinks.
+call appends to an ideal sink.  The writer has no panic site (`write_str` hands the whole
+`value.as_bytes()` to `write_all`; it used to slice `value[0..len & 0x0FFF]`).  `Rfsm.Model.Sink`
+runs the same call sequence against short-writing and failing sinks.
 
 Reader.  `DefaultProtocolReader` is a state machine over the remaining input with the sticky
 `ok` flag and the `type_and_value` scratch fields (`type_id`, `number` survive between calls: a
-first byte whose high nibble is 0, 2, 0xE or 0xF changes nothing, so the *previous* type and
+first byte whose high nibble is 0, 2 or 0xF changes nothing, so the *previous* type and
 number are seen again — transcribed).  Reader programs are a small free monad (`Prog`) over the
 trait methods, so that facts true of every reader program are proved once.  A Rust panic is
 recorded in `RState.panic` (first site wins) and the final result is `panic site`; what the
@@ -303,9 +302,13 @@ def tvTail (v : Nat) : Nat → Nat → List Nat
   | fuel + 1, size =>
     if size = 0 then [] else (v / 2 ^ (size - 8)) % 256 :: tvTail v fuel (size - 8)
 
+/-- the first nibble of `write_type_and_value` (`size` already reduced by 4):
+    `if size >= 64 { 0 } else { ((value >> size) as u8) & 0x0F }` -/
+def tvNibble (v size : Nat) : Nat := if size ≥ 64 then 0 else (v / 2 ^ size) % 16
+
 /-- `write_type_and_value(type_id, value, size)` against a sink that accepts everything -/
 def tvBytes (tid v size : Nat) : List Nat :=
-  (tid + (v / 2 ^ (size - 4)) % 16) :: tvTail v (size - 4) (size - 4)
+  (tid + tvNibble v (size - 4)) :: tvTail v (size - 4) (size - 4)
 
 inductive Op where
   /-- `write_type_and_value(type_id, value, size)` -/
@@ -319,28 +322,18 @@ inductive Op where
   | flush
   deriving Repr, Inhabited
 
-/-- the length actually sliced by `write_str`: `len` below 16, else `len & 0x0FFF` -/
-def strSliceLen (s : Str) : Nat := if s.length < 16 then s.length else s.length % 4096
-
-/-- header of `write_str` -/
+/-- header of `write_str`: 4 bit length, 12 bit length, or (4096 bytes and more) the type 0xE0 with
+    the length as a 64 bit number in the 68 bit form -/
 def strHeader (s : Str) : List Nat :=
-  if s.length < 16 then tvBytes 0xC0 s.length 4 else tvBytes 0xD0 s.length 12
-
-/-- `value[0..len]` panics when `len` is not a character boundary: `len` is neither 0 nor the full
-    length and the byte at `len` is a continuation byte -/
-def strPanics (s : Str) : Bool :=
-  let k := strSliceLen s
-  k < s.length && isCont (s.getD k 0)
+  if s.length < 16 then tvBytes 0xC0 s.length 4
+  else if s.length < 4096 then tvBytes 0xD0 s.length 12
+  else tvBytes 0xE0 s.length 68
 
 def Op.bytes : Op → List Nat
   | .tv tid v size => tvBytes tid v size
   | .byte b => [b]
-  | .str s => strHeader s ++ s.take (strSliceLen s)
+  | .str s => strHeader s ++ s
   | .flush => []
-
-def Op.panics : Op → Bool
-  | .str s => strPanics s
-  | _ => false
 
 /-- `write_uint` -/
 def uintOp (v : Nat) : Op :=
@@ -352,7 +345,7 @@ def uintOp (v : Nat) : Op :=
   else if v < 2 ^ 44 then .tv 0x80 v 44
   else if v < 2 ^ 52 then .tv 0x90 v 52
   else if v < 2 ^ 60 then .tv 0xA0 v 60
-  else .tv 0xB0 v 64
+  else .tv 0xB0 v 68
 
 /-- `write_boolean` -/
 def boolOp (b : Bool) : Op := .byte (if b then 0x1F else 0x10)
@@ -514,26 +507,12 @@ def opsFsm (f : Fsm) : List Op :=
 /-- bytes appended to an ideal sink by a call sequence -/
 def bytesOf (ops : List Op) : List Nat := ops.flatMap Op.bytes
 
-def anyPanics (ops : List Op) : Bool := ops.any Op.panics
-
-inductive WriteResult where
-  | bytes (b : List Nat)
-  | panic
-  deriving Repr
-
-/-- `FsmWriter::write` then `close` into a `Vec<u8>` -/
-def encodeFsm (f : Fsm) : WriteResult :=
-  let ops := opsFsm f
-  if anyPanics ops then .panic else .bytes (bytesOf ops)
-
-/-- the image as a plain byte list (meaningful when nothing panics) -/
+/-- `FsmWriter::write` then `close` into a `Vec<u8>`: the image -/
 def imageOf (f : Fsm) : List Nat := bytesOf (opsFsm f)
 
 /-! ## The reader -/
 
 inductive Site where
-  /-- `BindingType::from_ordinal`: "Unknown ordinal {} for BindingType" -/
-  | bindingOrdinal (n : Nat)
   /-- `read_executable_content`: "Unknown Executable Content: {}" -/
   | contentType (n : Nat)
   /-- not a Rust panic: the nesting fuel of the model's `readData` ran out -/
@@ -569,14 +548,23 @@ def readMore : Nat → RState → RState
       | [] => readMore n st.error
     else st
 
-/-- the two string arms of `read_type_and_size` after the length is known:
-    `read_exact(&mut buffer[0..us])`, `from_utf8` -/
+/-- the three string arms of `read_type_and_size` after the length is known:
+    `read_exact(&mut buffer[0..us])` resp. `take(us).read_to_end(..)` (both consume what is there and
+    fail when that is less than `us`), `from_utf8` -/
 def readStrPayload (us : Nat) (st : RState) : Str × RState :=
   if st.inp.length < us then ([], { st with inp := [] }.error)
   else
     let s := st.inp.take us
     let st := { st with inp := st.inp.drop us }
     if validUtf8 s then (s, st) else ([], st.error)
+
+/-- `if self.ok { us = number; number = 0; take(us).read_to_end(..); from_utf8 }` of the 0xE0 arm -/
+def longStrPayload (st : RState) : Str × RState :=
+  if st.ok then readStrPayload st.num { st with num := 0 } else ([], st)
+
+/-- the 0xE0 arm of `read_type_and_size` (first byte consumed): eight length bytes, then the payload -/
+def readLongStr (st : RState) : Str × RState :=
+  longStrPayload (readMore 8 { st with tid := 0xE0, num := 0 })
 
 /-- `read_type_and_size`; returns the content of `type_and_value.string` afterwards -/
 def readTypeAndSize (st : RState) : Str × RState :=
@@ -595,6 +583,7 @@ def readTypeAndSize (st : RState) : Str × RState :=
         match r with
         | [] => ([], { st with tid := 0xD0, num := 0 }.error)
         | b :: r' => readStrPayload (lo * 256 + b) { st with inp := r', tid := 0xD0, num := 0 }
+      else if hi = 0xE0 then readLongStr st
       else ([], st)
   else ([], st)
 
@@ -612,7 +601,7 @@ def readUIntS (st : RState) : Nat × RState :=
 def readStringS (st : RState) : Str × RState :=
   let (s, st) := readTypeAndSize st
   if st.ok then
-    if st.tid = 0xC0 ∨ st.tid = 0xD0 then (s, st) else ([], st.error)
+    if st.tid = 0xC0 ∨ st.tid = 0xD0 ∨ st.tid = 0xE0 then (s, st) else ([], st.error)
   else ([], st)
 
 /-- `read_boolean` -/
@@ -630,7 +619,7 @@ def readOptStrS (st : RState) : Option Str × RState :=
   if st.ok then
     let (s, st) := readTypeAndSize st
     if st.tid = 0x10 then (none, st)
-    else if st.tid = 0xD0 ∨ st.tid = 0xC0 then (some s, st)
+    else if st.tid = 0xE0 ∨ st.tid = 0xD0 ∨ st.tid = 0xC0 then (some s, st)
     else (none, st.error)
   else (none, st)
 
@@ -882,15 +871,8 @@ inductive ReadResult where
   | panic (s : Site)
   deriving Repr
 
-/-- the part of `FsmReader::read` after the version string matched -/
-def readFsmBody : Prog Fsm := do
-  let name ← pStr
-  let datamodel ← pStr
-  let ord ← pU8
-  let binding ← (match ord with
-    | 1 => pure Binding.early
-    | 2 => pure Binding.late
-    | n => do pPanic (.bindingOrdinal n); pure Binding.early)
+/-- the part of `FsmReader::read` after the binding ordinal has been accepted -/
+def readFsmRest (name datamodel : Str) (binding : Binding) : Prog Fsm := do
   let pseudoRoot ← pId
   let script ← pId
   let states ← readList readState
@@ -901,12 +883,27 @@ def readFsmBody : Prog Fsm := do
     pure (cid, l))
   pure { name, datamodel, binding, pseudoRoot, script, states, transitions, content }
 
-/-- `FsmReader::read` -/
+/-- `BindingType::from_ordinal` on the ordinals that `FsmReader::read` lets through -/
+def Binding.fromOrdinal : Nat → Option Binding
+  | 1 => some .early
+  | 2 => some .late
+  | _ => none
+
+/-- `FsmReader::read`: `has_error()` is consulted after the binding ordinal was read (an error or an
+    unknown ordinal is `Err("Can't read")`, `from_ordinal` is not reached) and again before `Ok` -/
 def readFsmProg : Prog ReadResult := do
   let version ← pStr
   if version = versionText then do
-    let f ← readFsmBody
-    pure (.ok f)
+    let name ← pStr
+    let datamodel ← pStr
+    let ord ← pU8
+    let e ← pHasError
+    match (if e then none else Binding.fromOrdinal ord) with
+    | none => pure .errCantRead
+    | some binding => do
+      let f ← readFsmRest name datamodel binding
+      let e2 ← pHasError
+      if e2 then pure .errCantRead else pure (.ok f)
   else do
     let e ← pHasError
     if e then pure .errCantRead else pure (.errVersion version)
